@@ -369,7 +369,14 @@ func canonicaliseSequences(s *Summary) {
 					{Op: "sym", Val: fmt.Sprintf("L%d.I", l.ID), Num: true, Int: true}, withInt(init.Args[0])}}
 				what := init.Val[strings.Index(init.Val, ":")+1:]
 				if ok, _, _ := equivTerms(l.Cond, cond, maxAtoms); !ok {
-					if n := tripCount(l); n != nil {
+					// a loop that fills only part of the slice while other statements fill the rest (peeled first/last element) is not an instance
+					elsewhere := false
+					for k, f := range s.Effects {
+						if k != i && f.Kind == "store" && writesObject(f.Args[0], init.Val, loc) {
+							elsewhere = true
+						}
+					}
+					if n := tripCount(l); n != nil && !elsewhere {
 						ls, _ := canonStr(withInt(init.Args[0]))
 						ts, _ := canonStr(withInt(n))
 						recordLen(s, LenCheck{what, false, fmt.Sprintf("allocated with length %s but filled by index over a loop with trip count %s", ls, ts)})
